@@ -1,6 +1,7 @@
 package rules
 
 import (
+	"go/constant"
 	"go/token"
 	"go/types"
 	"sort"
@@ -590,6 +591,60 @@ func c09(c *core.Ctx) {
 		same := c.Method(F("CBlock"), "IsSameBlock")
 		gs := core.CallsIn(wf, same)
 		c.Exactly("Walk/IsSameBlock-calls", len(gs), 1)
+		// what Walk excludes is one block: IsSameBlock answers true only by comparing the two blocks' hashes (two siblings of one miner for
+		// one slot agree in height, parent, miner and time; excluding both leaves one of them, and what is built on it, unpruned)
+		sfn := c.Fn(F("CBlock.IsSameBlock"))
+		okSame, nRet := true, 0
+		for _, r := range core.Returns(sfn) {
+			if k, isC := r.Results[0].(*ssa.Const); isC && k.Value != nil {
+				if !constant.BoolVal(k.Value) {
+					continue
+				}
+				// `return true` on the equal edge of receiver == argument (one node is the same block as itself)
+				self := false
+				for _, t := range sfn.Blocks {
+					ifi := ifOf(t)
+					if ifi == nil {
+						continue
+					}
+					bo, isB := ifi.Cond.(*ssa.BinOp)
+					if isB && bo.Op == token.EQL && len(sfn.Params) == 2 && ((bo.X == ssa.Value(sfn.Params[0]) && bo.Y == ssa.Value(sfn.Params[1])) || (bo.X == ssa.Value(sfn.Params[1]) && bo.Y == ssa.Value(sfn.Params[0]))) &&
+						t.Succs[0].Dominates(r.Block()) && len(t.Succs[0].Preds) == 1 {
+						self = true
+					}
+				}
+				if !self {
+					okSame = false
+				}
+				continue
+			}
+			nRet++
+			byHash := false
+			for v := range core.Slice(r.Results[0]) {
+				bo, isB := v.(*ssa.BinOp)
+				if !isB || bo.Op != token.EQL {
+					continue
+				}
+				_, xh := isCallOf(bo.X, blockHash)
+				_, yh := isCallOf(bo.Y, blockHash)
+				if xh && yh {
+					byHash = true
+				}
+			}
+			// nothing but the hash comparison (and nil tests) decides
+			for v := range core.Slice(r.Results[0]) {
+				if bo, isB := v.(*ssa.BinOp); isB && (bo.Op == token.EQL || bo.Op == token.NEQ) {
+					_, xh := isCallOf(bo.X, blockHash)
+					if !xh && !core.IsNilConst(bo.X) && !core.IsNilConst(bo.Y) {
+						byHash = false
+					}
+				}
+			}
+			if !byHash {
+				okSame = false
+			}
+		}
+		c.Check("IsSameBlock:by-hash", "value-flow", okSame && nRet >= 1, sfn.Pos(), "two tree nodes are the same block exactly when their block hashes are equal")
 		if len(gs) == 1 && len(wf.Params) == 3 {
 			gcall := gs[0]
 			recv, cb, excl := wf.Params[0], wf.Params[1], wf.Params[2]
